@@ -368,7 +368,7 @@ func cmdSoups(args []string) {
 		for _, l := range splitLines(text) {
 			lens = append(lens, len([]rune(l)))
 		}
-		lw.write(J{"id": i, "text": text, "lines": lens, "lexok": false, "accepts": false, "ntoks": len(toks)})
+		lw.write(J{"id": i, "text": text, "lines": lens, "lexok": false, "accepts": false, "unspec": true, "ntoks": len(toks)})
 	}
 	lw.close()
 	printJSON(J{"soups": n})
